@@ -15,6 +15,7 @@
 package zzverif
 
 import (
+	"sync"
 	"strconv"
 	"sort"
 	"encoding/json"
@@ -59,6 +60,8 @@ var (
 
 // Reset prepares a native replay run.
 func Reset() {
+	rtMu.Lock()
+	defer rtMu.Unlock()
 	ResetSchedule()
 	occ = map[string]int{}
 	Failed, Reached, Missing, Trace = nil, nil, nil, nil
@@ -66,7 +69,17 @@ func Reset() {
 	haveNow = false
 }
 
+// rtMu guards the replay state (counterexample values, occurrence counters): goroutines that the
+// code under test starts itself, or that outlive one replay attempt, may still draw values.
+var rtMu sync.Mutex
+
 func load() {
+	rtMu.Lock()
+	defer rtMu.Unlock()
+	loadLocked()
+}
+
+func loadLocked() {
 	if loaded {
 		return
 	}
@@ -103,7 +116,9 @@ func key(label string) string {
 }
 
 func draw(label string) (interface{}, bool) {
-	load()
+	rtMu.Lock()
+	defer rtMu.Unlock()
+	loadLocked()
 	k := key(label)
 	v, ok := cex.Values[k]
 	if !ok {
